@@ -41,6 +41,11 @@ MODULES = ["Tokens", "Print", "Parse", "Driver"]
 
 def judge_exe():
     """Compile the judge from the C files lake emitted for OVM.IO.Ascii.*; None -> use `lean --run`."""
+    if re.search(r'name\s*=\s*"asciijudge"', (LEAN / "lakefile.toml").read_text()):
+        ok, lg = build.lake_build(["asciijudge"])
+        if not ok:
+            raise RuntimeError("lake build asciijudge failed:\n" + lg[-3000:])
+        return LEAN / ".lake" / "build" / "bin" / "asciijudge"
     ok, lg = build.lake_build(["OVM.IO.Ascii.Driver"])
     if not ok:
         raise RuntimeError("lake build OVM.IO.Ascii.Driver failed:\n" + lg[-3000:])
